@@ -32,6 +32,13 @@ CHECKS = {
             'applies its models; tag of the last covering feature. Deleted and permuted lists are all members of the enumerated space and tied to the same fold.',
             'Membership of a point in a single feature is taken from the implementation (geometry is C04/C06); uniform models only; list length bound as stated.',
             'DESIGN.md section 3 C02'),
+    'C04': ('exploration', 'E1',
+            'bounded exhaustive enumeration of all simple lattice polygons (3..4|5 vertices on a 3x3|4x4 lattice) and of plume tables within 2|3 deviations, exact integer / long-double reference oracle',
+            'Every simple polygon of the lattice, in both orientations, is used as the footprint of each area feature type with three depth windows and three scales (cartesian) and five longitude '
+            'offsets including dateline-straddling and +-360 ones (spherical); membership at every half-step point (all edge and vertex points included) and at the closed ends of the depth interval '
+            '(with their nextafter neighbours) is compared with an exact integer crossing-number oracle. Plume tables within the deviation bound are compared with an independent implementation of the statement.',
+            'Polygons beyond the lattice / vertex bound and plume tables beyond the deviation bound are not covered; spherical boundary points and plume points within 1e-9 of the rim are skipped and counted.',
+            'DESIGN.md section 3 C04'),
 }
 NOT_YET = {}
 
